@@ -840,3 +840,31 @@ impl<E: Effect, R: CommandReceiver<E>, S: EventSender<E>> Worker<E, R, S> {
         Ok(())
     }
 }
+
+/// Read-only views for the verification harness (cargo feature `verif`).
+#[cfg(feature = "verif")]
+impl<E: Effect, R: CommandReceiver<E>, S: EventSender<E>> Worker<E, R, S> {
+    pub fn verif_executor(&self) -> &Executor<E> {
+        &self.executor
+    }
+
+    /// (awaited targets, target -> awaiters), both sorted.
+    pub fn verif_await_view(&self) -> (Vec<ProcessId>, Vec<(ProcessId, Vec<ProcessId>)>) {
+        let mut awaited: Vec<ProcessId> = self.awaited.iter().copied().collect();
+        awaited.sort_unstable();
+        let mut awaiters: Vec<(ProcessId, Vec<ProcessId>)> = self
+            .awaiters_for_target
+            .iter()
+            .map(|(k, v)| (*k, v.clone()))
+            .collect();
+        awaiters.sort();
+        (awaited, awaiters)
+    }
+
+    /// Processes with an unanswered GetResult request, sorted.
+    pub fn verif_pending_result_requests(&self) -> Vec<ProcessId> {
+        let mut v: Vec<ProcessId> = self.pending_result_requests.keys().copied().collect();
+        v.sort_unstable();
+        v
+    }
+}
